@@ -43,7 +43,7 @@ Theorem C02_stream_fields : forall ranges (w1 w2 w3 : nat) es x,
 Proof. exact xs_get_pos_spec. Qed.
 
 Theorem C02_objids : forall ranges (w1 w2 w3 : nat) es,
-  Forall (fun sc => 0 <= snd sc) ranges -> Forall (ent_fits w1 w2 w3) es ->
+  Forall (fun sc => 0 <= snd sc) ranges -> Forall (ent_fits w1 w2 w3) es -> (0 < w1 + w2 + w3)%nat ->
   length es = length (flat_map range_ids ranges) ->
   xs_get_objids (mkXS ranges (Z.of_nat w1) (Z.of_nat w2) (Z.of_nat w3) (flat_map (enc_ent w1 w2 w3) es)) =
   map fst (filter (fun p => inuse w1 (snd p)) (combine (flat_map range_ids ranges) es)).
